@@ -2149,6 +2149,10 @@ class KmipEngine(object):
         attribute = object_attributes.get('Cryptographic Length')
         if attribute:
             derivation_length = attribute.value
+            if derivation_length < 0:
+                raise exceptions.InvalidField(
+                    "The cryptographic length must not be negative."
+                )
             if (derivation_length % 8) == 0:
                 derivation_length //= 8
             else:
